@@ -237,8 +237,11 @@ pub fn long_sequences() -> Vec<(&'static str, Vec<Labels>, bool)> {
         let n: Labels = (127 - k..127).map(lab).collect();
         nest.push(n);
     }
-    // the decoder's hop budget is global per buffer: a third-party encoding of this sequence needs
-    // k-1 hops for name k (8,001 in total) — rejections of the reference form are observations
+    // the decoder's hop budget is global per buffer (8 per octet + 128): a third-party encoding of this
+    // sequence needs k-1 hops for name k (8,001 in total) and name 94 is rejected at offset 12. Decided
+    // with the lead (DESIGN 11.2): stays an observation — RFC 1035 sets no hop bound, a per-name cap
+    // contradicts hickory's own 8,000-link chain test, a larger constant breaks C01's linear-work curve,
+    // and mainstream decoders (BIND: 16 hops per name) reject such encodings too
     out.push(("nest-127", nest.clone(), false));
     out.push(("nest-64", nest[..64].to_vec(), true));
     // same: one name 130 times (compression stops after 120 names)
